@@ -12,6 +12,7 @@ struct Number { int kind; Integer *in; Rational *ra; Complex *co; bool is_zero()
   Number *pow(const Integer &e) const;  Number *div(const Number &o) const;
   /* the else-branch of a dispatcher forwards to other.op(*this) / other.rop(*this): recorded (the class of 'other' is outside this unit) */
   Number *add(const Integer &o) const; Number *rsub(const Integer &o) const; Number *mul(const Integer &o) const; Number *rdiv(const Integer &o) const; Number *rpow(const Integer &o) const;
+  Number *add(const Complex &o) const; Number *rsub(const Complex &o) const; Number *mul(const Complex &o) const; Number *rdiv(const Complex &o) const;
   Number *add(const Rational &o) const; Number *rsub(const Rational &o) const; Number *mul(const Rational &o) const; Number *rdiv(const Rational &o) const; Number *rpow(const Rational &o) const; };
 typedef Number *RCPNumber;
 struct Integer {
@@ -29,6 +30,7 @@ struct Integer {
 struct Rational {
   rational_class i; Number *num_;
   rational_class as_rational_class() const { return i; }     /* by value: returning const T& from a const member is mis-typed by the front end */
+  bool is_zero() const { return i.num == 0; }                 /* Rational::is_zero (real text proved in unit sign_predicates) */
   bool is_canonical(const rational_class &i) const;
   static RCPNumber from_mpq(const rational_class &i);
   static RCPNumber from_mpq_rv(rational_class &i);
@@ -45,6 +47,7 @@ struct Complex {
   static RCPNumber from_two_nums(const Number &re, const Number &im);
   bool is_re_zero() const { return real_.num == 0; }         /* ComplexBase::is_re_zero: real_part()->is_zero() */
   RCPNumber powcomp(const Integer &other) const;
+#include "complex_inline.inc"
 };
 inline bool Number::is_zero() const { return kind == NK_INTEGER && in->i == 0; }
 inline bool Number::is_negative() const { return kind == NK_INTEGER ? in->i < 0 : (kind == NK_RATIONAL && ra->i.num < 0); }
@@ -123,6 +126,10 @@ enum { F_NONE = 0, F_ADD, F_RSUB, F_MUL, F_RDIV, F_RPOW };
 #include "glue.inc"
 FWDI(add, F_ADD) FWDI(rsub, F_RSUB) FWDI(mul, F_MUL) FWDI(rdiv, F_RDIV) FWDI(rpow, F_RPOW)
 FWDR(add, F_ADD) FWDR(rsub, F_RSUB) FWDR(mul, F_MUL) FWDR(rdiv, F_RDIV) FWDR(rpow, F_RPOW)
+#define FWDC(name, code) inline Number *Number::name(const Complex &o) const { FWDREC(code) }
+FWDC(add, F_ADD) FWDC(rsub, F_RSUB) FWDC(mul, F_MUL) FWDC(rdiv, F_RDIV)
+inline bool is_a_Complex(const Number &x) { return x.kind == NK_COMPLEX; }
+inline const Complex &as_Complex(const Number &x) { return *x.co; }
 
 extern "C" void mp_pow_ui(long &r, long b, unsigned long e)
 {
@@ -359,6 +366,57 @@ extern "C" void h_dispatch(void)
   }
   REACHABLE("h_dispatch");
 }
+#ifndef EXACT_ABSTRACT
+/* Gaussian-rational arithmetic of Complex (in-class helpers and dispatchers, real text): exact value and normal form
+   (a Complex only when the imaginary part is non-zero), for small operands; oracle = textbook complex arithmetic over the rational stub */
+static rational_class q_of(long n, long d) { rational_class r; r.num = n; r.den = d; r.canon = true; return r; }
+extern "C" void h_complex_ops(void)
+{
+  init(); fwd_op = F_NONE;
+  Number Zn, B; Complex Z, BC; Integer BI; Rational BR;
+  Zn.kind = NK_COMPLEX; Zn.co = &Z; Zn.in = &s_noint; Zn.ra = &s_norat; Z.num_ = &Zn;
+  B.in = &BI; B.ra = &BR; B.co = &BC; BI.num_ = &B; BR.num_ = &B; BC.num_ = &B;
+  long zr = nondet_long(), zi = nondet_long(), zd = nondet_long(), zid = nondet_long();
+  __CPROVER_assume(zr >= -2 && zr <= 2 && zi >= -2 && zi <= 2 && zi != 0 && zd >= 1 && zd <= 2 && zid >= 1 && zid <= 2 && exact_gcd(zr, zd) == 1 && exact_gcd(zi, zid) == 1 && (zr != 0 || zd == 1));
+  Z.real_ = q_of(zr, zd); Z.imaginary_ = q_of(zi, zid);
+  BI.i = nondet_long(); __CPROVER_assume(BI.i >= -2 && BI.i <= 2);
+  mk_canonical_nonint(BR, -2, 2, 2);
+  long cr = nondet_long(), ci = nondet_long(); __CPROVER_assume(cr >= -2 && cr <= 2 && ci >= -2 && ci <= 2 && ci != 0);
+  BC.real_ = q_of(cr, 1); BC.imaginary_ = q_of(ci, 1);
+  int kb = nondet_int(); __CPROVER_assume(kb == NK_INTEGER || kb == NK_RATIONAL || kb == NK_COMPLEX); B.kind = kb;
+  int op = nondet_int(); __CPROVER_assume(op >= 0 && op <= 5);
+#ifdef COMPLEX_OP
+  __CPROVER_assume(op == COMPLEX_OP);
+#endif
+  __CPROVER_assume(op != 5 || kb == NK_INTEGER);          /* rdiv is only reached from Integer::div */
+  __CPROVER_assume(op != 4 || kb != NK_COMPLEX);          /* rsub is only reached from Integer::sub / Rational::sub */
+  rational_class br, bi = q_of(0, 1);           /* (no ?: on class-type operands: CBMC's symex aborts on them) */
+  if (kb == NK_INTEGER) br = q_of(BI.i, 1); else if (kb == NK_RATIONAL) br = BR.i; else { br = BC.real_; bi = BC.imaginary_; }
+  rational_class er, ei; bool undefined = false;
+  rational_class a = Z.real_, b = Z.imaginary_;
+  if (op == 0) { er = q_add(a, br); ei = q_add(b, bi); }
+  else if (op == 1) { er = q_sub(a, br); ei = q_sub(b, bi); }
+  else if (op == 4) { er = q_sub(br, a); ei = q_sub(bi, b); }
+  else if (op == 2) { er = q_sub(q_mul(a, br), q_mul(b, bi)); ei = q_add(q_mul(a, bi), q_mul(b, br)); }
+  else {
+    /* x / y = x * conj(y) / |y|^2 ; op 3: Z / B, op 5: B / Z */
+    rational_class xr, xi, yr, yi;
+    if (op == 3) { xr = a; xi = b; yr = br; yi = bi; } else { xr = br; xi = bi; yr = a; yi = b; }
+    rational_class m = q_add(q_mul(yr, yr), q_mul(yi, yi));
+    if (m.num == 0) undefined = true;
+    else { er = q_div(q_add(q_mul(xr, yr), q_mul(xi, yi)), m); ei = q_div(q_sub(q_mul(xi, yr), q_mul(xr, yi)), m); }
+  }
+  verif_may_throw = false;
+  RCPNumber r = op == 0 ? Z.add(B) : op == 1 ? Z.sub(B) : op == 2 ? Z.mul(B) : op == 3 ? Z.div(B) : op == 4 ? Z.rsub(B) : Z.rdiv(B);
+  if (undefined) OBL("C05.Complex.ops.post.division_by_exact_zero_is_zoo", r->kind == NK_ZOO);        /* the dividend is non-zero here */
+  else if (ei.num == 0) {
+    OBL("C05.Complex.ops.post.zero_imaginary_part_gives_a_normalised_real", normalised(r) && num_of(r) == er.num && den_of(r) == er.den);
+  } else {
+    OBL("C05.Complex.ops.post.complex_result_value", r->kind == NK_COMPLEX && r->co->real_.num == er.num && r->co->real_.den == er.den && r->co->imaginary_.num == ei.num && r->co->imaginary_.den == ei.den);
+  }
+  REACHABLE("h_complex_ops");
+}
+#endif
 extern "C" void h_powcomp(void)
 {
   init();
